@@ -70,7 +70,12 @@ fn main() {
                         let mut types_seen: BTreeMap<String, Vec<RType>> = BTreeMap::new();
                         let mut gathers = 0u64;
                         let mut bad: Vec<(String, String, serde_json::Value)> = vec![];
-                        let r = enumerate_orders(&members, &cfg, true, &mut gathers, |run| {
+                        let r = catch(|| enumerate_orders(&members, &cfg, true, &mut gathers, |run| {
+                            if let Some(e) = &run.unregister_error {
+                                if bad.len() < 4 {
+                                    bad.push(("unregister-failed".to_string(), e.clone(), json!({"engine":"enum","members": run.members, "detail": e})));
+                                }
+                            }
                             for mf in &run.result {
                                 let f = RFamily::from_proto(mf);
                                 let base = match run.cfg.prefix {
@@ -91,9 +96,16 @@ fn main() {
                                     }
                                 }
                             }
-                        });
+                        }));
                         local.evaluations += gathers;
                         local.transitions += gathers * (members.len() as u64 + 2);
+                        let r = match r {
+                            Ok(r) => r,
+                            Err(p) => {
+                                local.violation("panic", format!("members {:?}: register/gather/unregister panicked: {}", members, p), json!({"engine":"enum","members": members, "detail": p}));
+                                Ok(())
+                            }
+                        };
                         if let Err(e) = r {
                             eprintln!("MACHINERY: {}", e);
                             std::process::exit(2);
@@ -123,6 +135,7 @@ fn main() {
     }
     rep.states = rep.evaluations;
     rep.traces = rep.evaluations;
+    rep.extra.insert("combinations_with_deterministic_collect_order".into(), json!(UNREALISED.load(std::sync::atomic::Ordering::Relaxed)));
     rep.assumptions = vec![
         "collectors are this library's metric types; the known finding is keyed by 'family name registered under two or more metric kinds' — a mixed or unstable family whose collectors are all of one kind is a new violation".into(),
     ];
